@@ -74,6 +74,7 @@ type Ctx struct {
 	hitDL    bool
 	maxViol  int
 	perSig   map[string]int
+	outPath  string
 }
 
 func (c *Ctx) Mine(i int) bool { return i%c.NShards == c.Shard }
@@ -149,6 +150,14 @@ func (c *Ctx) Violation(sig, desc string, replay interface{}) {
 	if c.perSig[sig] < c.maxViol {
 		c.perSig[sig]++
 		c.res.Violations = append(c.res.Violations, Violation{Sig: sig, Desc: desc, Replay: b})
+		// keep what was found even if this worker later hangs or dies (the parent reads the
+		// partial file of a failed worker)
+		if c.outPath != "" {
+			c.res.Exhaustive = false
+			if pb, err := json.Marshal(&c.res); err == nil {
+				os.WriteFile(c.outPath+".partial", pb, 0o644)
+			}
+		}
 	} else {
 		c.res.Counters["violations_dropped"]++
 	}
@@ -259,6 +268,7 @@ func (c *Ctx) finish() *Result {
 func runWorker(ck Check, tier string, seed int64, shard, n int, out string) {
 	debug.SetGCPercent(200)
 	c := newCtx(ck, tier, seed, shard, n)
+	c.outPath = out
 	ck.Run(c)
 	b, _ := json.Marshal(c.finish())
 	if err := os.WriteFile(out, b, 0o644); err != nil {
@@ -349,6 +359,14 @@ func runParent(ck Check, tier string, seed int64, jobs int) int {
 					lb = lb[len(lb)-6000:]
 				}
 				errs[i] = fmt.Errorf("shard %d: %v\n%s", i, err, lb)
+				// violations the worker recorded before it died are kept
+				if pb, e := os.ReadFile(out + ".partial"); e == nil {
+					var r Result
+					if json.Unmarshal(pb, &r) == nil {
+						r.Exhaustive = false
+						results[i] = &r
+					}
+				}
 				return
 			}
 			b, err := os.ReadFile(out)
@@ -365,10 +383,16 @@ func runParent(ck Check, tier string, seed int64, jobs int) int {
 		}(i)
 	}
 	wg.Wait()
+	// a worker that crashed, hung (killed by the watchdog) or exited is a harness error; the
+	// results of the other workers (and what the failed one had recorded) are still reported, so
+	// that violations found elsewhere are not lost
+	nfail := 0
 	for _, e := range errs {
 		if e != nil {
-			fmt.Fprintf(os.Stderr, "HARNESS-ERROR property=%s %v\n", ck.ID, e)
-			return 2
+			nfail++
+			if nfail <= 3 {
+				fmt.Fprintf(os.Stderr, "HARNESS-ERROR property=%s %v\n", ck.ID, e)
+			}
 		}
 	}
 
@@ -376,6 +400,10 @@ func runParent(ck Check, tier string, seed int64, jobs int) int {
 	tot := Result{Counters: map[string]int64{}, Exhaustive: true}
 	distinct := map[uint64]struct{}{}
 	for _, r := range results {
+		if r == nil {
+			tot.Exhaustive = false
+			continue
+		}
 		tot.Evaluations += r.Evaluations
 		tot.States += r.States
 		tot.Transitions += r.Transitions
@@ -500,6 +528,12 @@ func runParent(ck Check, tier string, seed int64, jobs int) int {
 	if err := os.WriteFile(filepath.Join(evdir, ck.ID+".json"), append(b, '\n'), 0o644); err != nil {
 		fmt.Fprintln(os.Stderr, err)
 		return 2
+	}
+	if nfail > 0 {
+		fmt.Printf("HARNESS-ERROR property=%s %d of %d workers failed (crash, exit or hang); their part of the space is not covered\n", ck.ID, nfail, n)
+		if exit == 0 {
+			exit = 2
+		}
 	}
 	fmt.Printf("%s %s: evaluations=%d distinct=%d states=%d transitions=%d exhaustive=%v violations=%d known=%d wall=%.1fs\n",
 		ck.ID, tier, tot.Evaluations, len(distinct), tot.States, tot.Transitions, tot.Exhaustive, nviol, len(knownHit), time.Since(start).Seconds())
